@@ -277,6 +277,7 @@ class B:
                 f = t['f']
                 if 'fn' in f:
                     ab.add('call:' + f['fn'])
+                    ab.add('cs:%s#%d' % (f['fn'], bi))   # call site (block index): lets a rule bind a guard to one particular call
                     if 'res' in f:
                         ab.add('callres:' + f['res'])
                     if 'selfty' in f:
